@@ -128,8 +128,15 @@ func judge(sp Spec, o *obs) func(x *explore.Exec) *explore.Verdict {
 			return &explore.Verdict{Kind: kind, Clause: clause, Detail: fmt.Sprintf(format, a...) + "\nevents: " + w.Render()}
 		}
 		byName := map[string]TaskSpec{}
-		for _, t := range sp.Tasks {
+		for ti, t := range sp.Tasks {
 			byName[t.Name] = t
+			if invalidWait(sp, ti) {
+				// the wait list names the task itself or a task submitted later: not "already existing"
+				if o.submitErr[t.Name] == nil {
+					return v("invalid-wait-accepted", "a task may only wait for tasks that already exist", "submission of %s with wait list %v was accepted", t.Name, t.Wait)
+				}
+				continue
+			}
 			if o.submitErr[t.Name] != nil && !anyOtherFails(sp, t.Name) {
 				return v("valid-submission-refused", "a task may wait for tasks that already exist", "submission of %s (wait %v) was refused: %v", t.Name, t.Wait, o.submitErr[t.Name])
 			}
@@ -256,6 +263,23 @@ func judge(sp Spec, o *obs) func(x *explore.Exec) *explore.Verdict {
 	}
 }
 
+// invalidWait: the wait list of task ti names itself, a task submitted later, or a task whose own
+// submission had to be refused.
+func invalidWait(sp Spec, ti int) bool {
+	for _, wn := range sp.Tasks[ti].Wait {
+		ok := false
+		for j := 0; j < ti; j++ {
+			if sp.Tasks[j].Name == wn && !invalidWait(sp, j) {
+				ok = true
+			}
+		}
+		if !ok {
+			return true
+		}
+	}
+	return false
+}
+
 func anyOtherFails(sp Spec, except string) bool {
 	for _, t := range sp.Tasks {
 		if (t.Name != except && t.Fail != "") || t.NestFail {
@@ -301,6 +325,12 @@ func programs(thorough bool) []Spec {
 			ps = append(ps, Spec{Tasks: []TaskSpec{fail(t("a", sh[0]...), ff[0]), fail(t("b", sh[1]...), ff[1]), fail(t("c", sh[2]...), ff[2])}, Bound: bb})
 		}
 	}
+	// wait lists that are not acyclic / name tasks that do not exist yet: refused, and everything
+	// accepted still finishes
+	ps = append(ps, Spec{Tasks: []TaskSpec{t("a", "a")}, Bound: b})
+	ps = append(ps, Spec{Tasks: []TaskSpec{t("a"), t("b", "a", "b")}, Bound: b})
+	ps = append(ps, Spec{Tasks: []TaskSpec{t("a", "b"), t("b")}, Bound: b})
+	ps = append(ps, Spec{Tasks: []TaskSpec{t("a"), t("b", "b"), t("c", "a")}, Bound: b})
 	// nested submissions from inside a body
 	n := t("a")
 	n.Nest = "inner"
@@ -389,7 +419,7 @@ func replay(wj json.RawMessage) (*fw.Violation, error) {
 
 func init() {
 	fw.Register(&fw.Check{ID: "C14", Level: "model_checking",
-		Rule: "programs = task graphs on 2-3 tasks (all wait shapes incl. diamonds and chains) x failing command variants (first/second command returns an error; a command appends an error to its scope) x body durations x a submission waiting for an unknown task x nested pip:run from inside a body x write/read resource locks; a mock application (terminal, common, open-container and pipeline modules) is bootstrapped per execution, tasks are submitted through the real Runner and run in the real self sandbox (terminal read-execute loop) with probe commands; every schedule with <= bound preemptions (quick: free context switches at blocking points only, chains and two-task graphs; thorough: 1 preemption for chains and two-task graphs, free switches for three-task graphs with concurrent tasks) with a happens-before state cache; oracle on the probe event log. states = distinct schedule traces",
+		Rule: "programs = task graphs on 2-3 tasks (all wait shapes incl. diamonds and chains) x failing command variants (first/second command returns an error; a command appends an error to its scope) x body durations x a submission waiting for an unknown task, for itself, or for a task submitted later x nested pip:run from inside a body x write/read resource locks; a mock application (terminal, common, open-container and pipeline modules) is bootstrapped per execution, tasks are submitted through the real Runner and run in the real self sandbox (terminal read-execute loop) with probe commands; every schedule with <= bound preemptions (quick: free context switches at blocking points only, chains and two-task graphs; thorough: 1 preemption for chains and two-task graphs, free switches for three-task graphs with concurrent tasks) with a happens-before state cache; oracle on the probe event log. states = distinct schedule traces",
 		Run: run, Replay: replay,
 		Assumptions: []string{"tasks under one parent scope share its context: after any failure a sibling body may be cut short (prefix), which the statement does not forbid; only order, never-after-failure and the results are judged", "a command that reports its error through AppendError and returns nil does not stop its own loop deterministically (select between done and the next line); only commands that return an error must stop the body"}})
 }
